@@ -21,7 +21,7 @@ import CelloGen.FileScan
 namespace Cello.FileText
 
 open Cello.File (Ref Handle R Out Call Fn Stream Dir lookup)
-open CelloGen.FileScan (CTy WExpr Arm)
+open CelloGen.FileScan (CTy WExpr Arm FArm)
 
 /-! ## C's integer conversions on values -/
 
@@ -61,6 +61,7 @@ structure Src where
   floatWide : List Nat
   floatThenNarrow : Bool       -- the arm taken when `fmt_buf` contains a `floatWide` character reads a `float`
   floatElseNarrow : Bool
+  farms : List FArm            -- the floating branch as a chain of arms (extension round): test, object type, `$F(…)` argument
   charTy : CTy
   charFin : WExpr
 
@@ -71,6 +72,7 @@ def src : Src where
   floatWide := CelloGen.FileScan.floatWide
   floatThenNarrow := CelloGen.FileScan.floatThenTy == "float"
   floatElseNarrow := CelloGen.FileScan.floatElseTy == "float"
+  farms := CelloGen.FileScan.floatArms
   charTy := CelloGen.FileScan.charTy
   charFin := CelloGen.FileScan.charFin
 
@@ -107,9 +109,32 @@ def charValue (S : Src) (b : Nat) : Int :=
 /-- the byte `%c` of printf writes for the `int64_t` argument -/
 def charByte (n : Int) : Nat := (n % 256).toNat
 
-/-- does the floating branch read a `float` for `%<c>` / `%l<c>`? -/
+/-- the floating branch as the source has it: the first arm of the chain whose test holds on `fmt_buf` (= the specification
+    followed by `%n`), exactly like `selectArm` for the integers -/
+def floatArmFor (S : Src) (l : Bool) (cv : Text.FConv) : Option FArm :=
+  S.farms.find? (fun a => (Text.mkTest a.test a.arg).holds (Text.fspecFmt l cv ++ [37, 110]))
+
+/-- the type of the object libc's scanf stores into for a floating conversion (C11 7.21.6.2 §11): `float` without a length
+    modifier, `double` with `l` -/
+def libcFloatObj (l : Bool) : String := if l then "double" else "float"
+
+/-- does the floating branch read a `float` for `%<c>` / `%l<c>`?  (the type of the object of the arm the chain selects) -/
 def floatNarrow (S : Src) (l : Bool) (cv : Text.FConv) : Bool :=
-  if (Text.fspecFmt l cv ++ [37, 110]).any (fun b => S.floatWide.contains b) then S.floatThenNarrow else S.floatElseNarrow
+  match floatArmFor S l cv with
+  | some a => a.obj == "float"
+  | none => false
+
+/-- the floating branch for `%<l?><c>` as a reader of the text after the position: the selected arm names the object whose address
+    scanf gets; libc stores a `float` (4 bytes) or a `double` (8 bytes) as the SPECIFICATION says — into an object of another type
+    that is undefined behaviour (a `float` stored into the low half of a zeroed `double` reads as a denormal near 5e-315; a `double`
+    stored into a `float` overruns it); the Float is `$F(<fin>)`, modelled for `fin` = the object itself -/
+def scanFloatSpec (S : Src) (l : Bool) (cv : Text.FConv) (input : List Nat) : Text.Res (Nat × List Nat) :=
+  match floatArmFor S l cv with
+  | none => .unmodelled
+  | some a =>
+    if a.obj ≠ libcFloatObj l then .ub
+    else if a.fin ≠ "tmp" then .unmodelled
+    else Text.scanFloating (a.obj == "float") input
 
 /-! ## specifications and values of the op files -/
 
@@ -233,7 +258,7 @@ def readPlain (S : Src) (sp : Spec) (inp : List Nat) (dflt : TVal) : Rd :=
     match inp with
     | [] => ⟨false, 0, true, dflt, 1, true⟩
     | b :: _ => ⟨true, 1, false, .int (charValue S b), 1, true⟩
-  | .flt l cv => rdOfRes inp dflt .flt (Text.scanFloating (floatNarrow S l cv) inp)
+  | .flt l cv => rdOfRes inp dflt .flt (scanFloatSpec S l cv inp)
   | .str =>
     match Text.skipSpace inp with
     | [] => ⟨false, inp.length, true, dflt, 1, true⟩
